@@ -10,6 +10,12 @@ use std::time::Instant;
 
 pub const VERIF_ROOT: &str = "/verif";
 
+/// Where `out/<ID>/` and `evidence/` are written: /verif, unless the seed re-run tooling (tools/iso_seeds.sh) redirects
+/// them so that runs against a patched scratch copy never touch the evidence of the real tree.
+pub fn out_root() -> PathBuf {
+    std::env::var("VERIF_OUT_ROOT").map(PathBuf::from).unwrap_or_else(|_| PathBuf::from(VERIF_ROOT))
+}
+
 // ---------------------------------------------------------------------------------------------
 // own stdout: the library prints log lines to stdout (default logger); fd 1 is redirected to /dev/null at start
 // and everything the harness reports goes through `out!` to the saved descriptor.
@@ -265,7 +271,7 @@ pub fn load_known_findings() -> Vec<KnownFinding> {
 
 pub fn finish(ctx: &RunCtx, mut report: Report, started: Instant) -> i32 {
     let known = load_known_findings();
-    let out_dir = PathBuf::from(VERIF_ROOT).join("out").join(&ctx.id);
+    let out_dir = out_root().join("out").join(&ctx.id);
     let _ = std::fs::remove_dir_all(&out_dir);
 
     // group violations by key
@@ -327,7 +333,7 @@ pub fn finish(ctx: &RunCtx, mut report: Report, started: Instant) -> i32 {
         "wall_s": started.elapsed().as_secs_f64(),
         "violations": new_violations,
     });
-    let ev_dir = PathBuf::from(VERIF_ROOT).join("evidence");
+    let ev_dir = out_root().join("evidence");
     let _ = std::fs::create_dir_all(&ev_dir);
     let ev_path = ev_dir.join(format!("{}.json", ctx.id));
     if exit != 2 {
